@@ -12,6 +12,14 @@ Correspondence (model = `lean/PercevalModel/Model/C08.lean`, run through `Driver
   {None, PNR, threshold, interleaved, BS tree} for small m, random rational distributions,
   every filter 0..n+1 and None, fresh and long-lived detector objects;
 * `Processor.probs()` with detectors = model applied to the same processor's detector-free output;
+* ONE detector instance driven through a history mixing `detect(n)`, one-mode / shared-instance
+  `simulate_detectors` with filters that reject readings, and a one-mode `Processor.probs()`: every answer is
+  the one of a fresh detector (nothing leaks through the memoised kernel);
+* `Processor.probs()` with detectors AND heralds (also on modes read by pseudo-PNR detectors), photon filter,
+  post-selection, re-queried; ONE `Simulator` queried through `probs_svd` with a sequence of detector lists
+  (all-PNR = backend heralds mask on, imperfect = mask off), heralds expecting up to 2 photons: the result is the
+  detector kernels applied to the complete theoretical distribution, THEN the heralds / post-selection read on the
+  readings (model: `Model/C08Glue.lean`, op `tail`); the same through `Processor.samples()` (support + 6-sigma TEST);
 * `simulate_detectors_sample` / `Processor.samples()` with detectors: every draw lies in the support of the
   mode-wise kernel product (and a 6-sigma frequency TEST against the law).
 
@@ -736,6 +744,95 @@ def sim_cases(chk):
 
 
 # ------------------------------------------------------------------------------------------------
+# F2. one detector INSTANCE driven through a history that mixes its entry points:
+#     detect(n) / simulate_detectors (one mode: the tensor product of a single factor IS the memoised
+#     object; several modes sharing the instance) / a one-mode Processor.probs(), with photon filters that
+#     reject some readings — every answer must be the one of a fresh detector (no state leaks through the memo)
+# ------------------------------------------------------------------------------------------------
+def run_detsession_case(chk, case):
+    import perceval as pcvl
+    from perceval.components import PS
+    from perceval.simulators._simulate_detectors import simulate_detectors
+    from perceval.utils import BSDistribution, BasicState
+    d = case["det"]
+    inst = build_det(d)
+    chk.branch("detector-session")
+    filtered_before = False
+    for i, step in enumerate(case["steps"]):
+        sub = dict(case, steps=case["steps"][:i + 1])
+        sig = "detector-history-dependence" if i else "detect-click-law"
+        where = f"step {i + 1} of a history on ONE {det_label(d)} detector instance {json.dumps(d)}"
+        try:
+            if step[0] == "detect":
+                n = step[1]
+                why = cmp_spec(py_out(inst.detect(n)), spec_detector(d, n))
+                if filtered_before and n >= 2:
+                    chk.branch("session-detect-after-filtered-sim")
+                if why is not None:
+                    return ("violation", sig, f"{where}: detect({n}): {why}", sub)
+            else:
+                if step[0] == "sim":
+                    dist = [(tuple(st), Fraction(*float(Fraction(q[0], q[1])).as_integer_ratio())) for st, q in step[1]]
+                    m = len(dist[0][0])
+                    bsd = BSDistribution()
+                    for st, q in dist:
+                        bsd[BasicState(list(st))] = float(q)
+                    res, perf = simulate_detectors(bsd, [inst] * m, step[2])
+                    what = f"simulate_detectors({[list(st) for st, _ in dist]}, [inst]*{m}, {step[2]})"
+                else:
+                    n, m = step[1], 1
+                    dist = [((n,), Fraction(1))]
+                    pr = pcvl.Processor("SLOS", pcvl.Circuit(1).add(0, PS(0.3)))
+                    pr.add(0, inst)
+                    pr.min_detected_photons_filter(step[2])
+                    pr.with_input(BasicState([n]))
+                    out = pr.probs(precision=0)
+                    res, perf = out["results"], out["physical_perf"]
+                    what = f"one-mode Processor.probs() on |{n}> with filter {step[2]}"
+                got = {tuple(st): float(q) for st, q in res.items()}
+                s_dist, s_perf = spec_simulate(dist, [d] * m, step[2])
+                if m == 1:
+                    chk.branch("session-one-mode-sim")
+                if s_perf < 1:
+                    chk.branch("session-filter-rejects-reading")
+                    filtered_before = True
+                why = cmp_dist(got, s_dist)
+                if why is None and not core.close(float(perf), float(s_perf), TOL):
+                    why = f"physical perf {float(perf)!r}, expected {float(s_perf)!r}"
+                if why is not None:
+                    return ("violation", sig if step[0] == "sim" or i else "processor-detectors-law",
+                            f"{where}: {what}: {why}", sub)
+        except Exception as e:
+            return ("violation", "detector-session-raises", f"{where}: {step} raised {type(e).__name__}: {e}", sub)
+    chk.case(("detsession", json.dumps(d, sort_keys=True), json.dumps(case["steps"])), nontrivial=True,
+             sample={"detector": d, "steps": case["steps"][:4]})
+    return None
+
+
+def detsession_cases(chk):
+    rng = chk.rng
+    dets = [{"k": "ppnr", "w": 3, "max": None}, {"k": "ppnr", "w": 5, "max": 3}, {"k": "ppnr", "w": 4, "max": 2},
+            {"k": "bs", "L": 2, "r": [1, 2]}, {"k": "bs", "L": 1, "r": [9, 25]}, {"k": "thr"}]
+    for _ in range(chk.pick(4, 30)):
+        dets.append(gen_det(rng, rng.choice(["interleaved", "bs"])))
+    out = []
+    for d in dets:
+        for n in rng.sample([2, 3, 4], chk.pick(2, 3)):
+            one = [[[n], [1, 1]]]
+            two = [[[n, 0], [1, 2]], [[1, n - 1], [1, 2]]]
+            pool = [["detect", n], ["sim", one, n], ["sim", one, 2], ["sim", one, None], ["sim", one, 0],
+                    ["sim", two, n], ["sim", two, None], ["proc", n, n], ["proc", n, 1], ["proc", n, 0], ["detect", n],
+                    ["detect", n - 1], ["sim", [[[n], [1, 2]], [[n - 1], [1, 2]]], n]]
+            # a filtered one-mode simulation first, then everything else in random order, law re-read at the end
+            steps = [["detect", n], rng.choice([["sim", one, n], ["proc", n, n]])] + \
+                    [copy.deepcopy(rng.choice(pool)) for _ in range(rng.randint(3, 6))] + [["sim", one, None], ["detect", n]]
+            if rng.random() < 0.3:
+                steps = steps[1:]     # the very first use of the instance is the filtered simulation
+            out.append({"det": d, "steps": steps})
+    return out
+
+
+# ------------------------------------------------------------------------------------------------
 # G. Processor.probs() with detectors
 # ------------------------------------------------------------------------------------------------
 def build_circuit(spec):
@@ -815,6 +912,454 @@ def proc_cases(chk):
         out.append({"circ": {"m": m, "ops": ops}, "input": inp, "dets": [gen_det(rng, k) for k in kinds],
                     "minph": rng.randint(0, n)})
     return out
+
+
+# ------------------------------------------------------------------------------------------------
+# G2. Processor.probs() / Simulator.probs_svd with detectors AND heralds / post-selection:
+#     heralds and post-selection are read on the detector READINGS
+# ------------------------------------------------------------------------------------------------
+PS_OPS = {"==": lambda a, b: a == b, "<": lambda a, b: a < b, ">": lambda a, b: a > b}
+
+
+def ps_string(ps):
+    return " & ".join(f"[{','.join(map(str, modes))}] {op} {v}" for modes, op, v in ps)
+
+
+def ps_ok(ps, t):
+    return all(PS_OPS[op](sum(t[i] for i in modes), v) for modes, op, v in (ps or []))
+
+
+def det_max(d):
+    """max_detections of a detector spec (None = exact photon counting)"""
+    if d is None or d["k"] == "pnr":
+        return None
+    if d["k"] == "thr":
+        return 1
+    if d["k"] == "ppnr":
+        return d["w"] if d.get("max") is None else min(d["max"], d["w"])
+    return 2 ** d["L"]
+
+
+def spec_heralded(base_dist, dets, minph, heralds, ps):
+    """The property evaluated exactly: every mode of the theoretical distribution is transformed by its detector
+    kernel (photon filter on the total reading, heralded modes included), THEN the heralds and the post-selection are
+    read on the readings.  -> (result without the heralded modes, physical perf, probability of acceptance,
+    retained mass under the filter)"""
+    F = minph + sum(v for _, v in heralds)
+    s_dist, s_perf = spec_simulate(base_dist, dets or [], F)
+    hm = sorted(k for k, _ in heralds)
+    acc, res = Fraction(0), {}
+    for t, q in s_dist.items():
+        if all(t[k] == v for k, v in heralds) and ps_ok(ps, t):
+            acc += q
+            key = tuple(x for i, x in enumerate(t) if i not in hm)
+            res[key] = res.get(key, Fraction(0)) + q
+    if acc:
+        res = {k: v / acc for k, v in res.items()}
+    return res, s_perf, acc, sum(s_dist.values())
+
+
+def theoretical_dist(circ, full_input):
+    """detector-free, herald-free output distribution of the circuit (exact rationals of the floats)"""
+    import perceval as pcvl
+    from perceval.utils import BasicState
+    p = pcvl.Processor("SLOS", build_circuit(circ))
+    p.min_detected_photons_filter(0)
+    p.with_input(BasicState(full_input))
+    base = p.probs(precision=0)["results"]
+    return [(tuple(s), Fraction(*float(q).as_integer_ratio())) for s, q in base.items()]
+
+
+def herald_branches(chk, base_dist, dets, heralds, prefix):
+    """which herald shapes this case exercises"""
+    dets = dets or [None] * len(base_dist[0][0])
+    for k, v in heralds:
+        mx = det_max(dets[k])
+        above = sum(q for t, q in base_dist if t[k] > v)
+        if mx is None:
+            chk.branch(prefix + "-herald-on-pnr")
+        elif v > mx:
+            chk.branch(prefix + "-herald-incompatible")
+        elif mx == 1:
+            chk.branch(prefix + "-herald-on-threshold")
+        else:
+            chk.branch(prefix + "-herald-on-ppnr")
+            if v >= 1 and v < mx and above > Fraction(1, 1000):
+                # a pseudo-PNR reading below the maximum that several photon counts produce
+                chk.branch(prefix + "-herald-ppnr-bunched")
+        if mx is not None and v == mx and v >= 1 and above > Fraction(1, 1000):
+            # the expected reading is the detector's highest one: "v photons or more"
+            chk.branch(prefix + "-herald-saturated")
+        if v == 0 and mx is not None and above > Fraction(1, 1000):
+            chk.branch(prefix + "-herald-zero")
+    if heralds and spec_detection_type(dets) == "PNR":
+        chk.branch(prefix + "-mask-path")
+
+
+def judge_heralded(chk, what, got, perf, logical, base_dist, dets, minph, heralds, ps, m, case):
+    """compare one probs() / probs_svd() result with the oracle, then with the model"""
+    label = f"{what} with detectors {[det_label(d) for d in dets] if dets is not None else None}, heralds " \
+            f"{dict(map(tuple, heralds))}" + (f", post-selection '{ps_string(ps)}'" if ps else "") + f", filter {minph}"
+    s_res, s_perf, s_acc, s_mass = spec_heralded(base_dist, dets, minph, heralds, ps)
+    incompatible = any(det_max(d) is not None and v > det_max(d)
+                       for (k, v) in heralds for d in [(dets or [None] * m)[k]])
+    why = cmp_dist(got, s_res)
+    if why is None and not incompatible and not core.close(perf, float(s_perf), TOL):
+        # (incompatible heralds make probs_svd return early with physical_perf = 1: as coded)
+        why = f"physical_perf {perf!r}, expected {float(s_perf)!r}"
+    if why is None and s_mass > 0 and not core.close(logical, float(s_acc), TOL):
+        why = f"logical_perf (probability of the heralded readings) {logical!r}, expected {float(s_acc)!r}"
+    if why is None and got and not core.close(sum(got.values()), 1.0, TOL):
+        why = f"result mass {sum(got.values())!r}"
+    if why is not None:
+        return ("violation", "heralds-read-before-detectors" if heralds else "processor-detectors-law",
+                f"{label}: not the detector kernels applied mode-wise to the theoretical distribution followed by the "
+                f"selection on the readings: {why}", case)
+    F = minph + sum(v for _, v in heralds)
+    rep = chk.lean.ask({"op": "tail", "m": m, "dist": [[list(s), core.rat(p)] for s, p in base_dist],
+                        "dets": None if dets is None else [lean_det(d) for d in dets], "minph": F, "minp": MINP,
+                        "heralds": [list(h) for h in heralds]})
+    if "err" in rep:
+        return ("broken", "model-vs-code", f"{label}: model rejects the case: {rep}", case)
+    if rep["mask"]:
+        chk.branch("model-mask-on")
+    else:
+        chk.branch("model-mask-off")
+    hm = sorted(k for k, _ in heralds)
+    mres, macc = {}, Fraction(0)
+    for t, q in rep["dist"]:
+        t, q = tuple(t), Fraction(q)
+        if ps_ok(ps, t):
+            key = tuple(x for i, x in enumerate(t) if i not in hm)
+            mres[key] = mres.get(key, Fraction(0)) + q
+            macc += q
+    if macc:
+        mres = {k: v / macc for k, v in mres.items()}
+    if not rep["compatible"]:
+        mres = {}
+    why = cmp_dist(got, mres)
+    if why is None and rep["compatible"] and not core.close(perf, float(Fraction(rep["perf"])), TOL):
+        why = f"physical_perf {perf!r}, model {rep['perf']}"
+    if why is not None:
+        return ("broken", "model-vs-code", f"{label} vs model: {why}", case)
+    return None
+
+
+def run_hproc_case(chk, case):
+    """`Processor.probs()` with heralds, detectors (also on the heralded modes), photon filter, post-selection"""
+    import perceval as pcvl
+    from perceval.utils import BasicState, PostSelect
+    m = case["circ"]["m"]
+    heralds = [tuple(h) for h in case["heralds"]]
+    hmodes = {k for k, _ in heralds}
+    ps = case.get("ps")
+    base_dist = theoretical_dist(case["circ"], case["input"])
+    kinds = tuple(det_label(d) for d in case["dets"])
+    chk.branch("processor-heralds")
+    herald_branches(chk, base_dist, case["dets"], heralds, "proc")
+    if ps:
+        chk.branch("proc-postselect")
+    chk.case(("hproc", kinds, tuple(case["input"]), tuple(heralds), case["minph"], ps_string(ps or [])),
+             nontrivial=any(det_max(case["dets"][k]) not in (None,) for k in hmodes),
+             sample={"processor": case["circ"], "input": case["input"], "dets": kinds, "heralds": case["heralds"],
+                     "min_photons": case["minph"], "postselect": ps_string(ps or [])})
+    p = pcvl.Processor("SLOS", build_circuit(case["circ"]))
+    for k, v in heralds:
+        p.add_herald(k, v)
+    for i, d in enumerate(case["dets"]):
+        if d is not None:
+            p.add(i, build_det(d))
+    if ps:
+        p.set_postselection(PostSelect(ps_string(ps)))
+    p.min_detected_photons_filter(case["minph"])
+    p.with_input(BasicState([x for i, x in enumerate(case["input"]) if i not in hmodes]))
+    outs = []
+    try:
+        for _ in range(case.get("repeat", 1)):
+            outs.append(p.probs(precision=0))
+    except Exception as e:
+        return ("violation", "processor-heralds-raises",
+                f"Processor.probs() with detectors {list(kinds)} and heralds {dict(heralds)} raised "
+                f"{type(e).__name__}: {e}", case)
+    if len(outs) > 1:
+        chk.branch("proc-requery")
+    for out in outs:
+        got = {tuple(s): float(q) for s, q in out["results"].items()}
+        r = judge_heralded(chk, "Processor.probs()", got, float(out["physical_perf"]), float(out["logical_perf"]),
+                           base_dist, case["dets"], case["minph"], heralds, ps, m, case)
+        if r is not None:
+            return r
+    return None
+
+
+def run_simsession_case(chk, case):
+    """ONE `Simulator` (what Processor.probs() drives), heralds possibly expecting more than one photon, queried
+    with a sequence of detector lists: all-PNR lists (heralds mask of the backend in use) interleaved with
+    imperfect ones (mask must be off) — every answer against the oracle"""
+    from perceval.simulators import Simulator
+    from perceval.backends import SLOSBackend
+    from perceval.utils import BasicState, SVDistribution, PostSelect
+    m = case["circ"]["m"]
+    heralds = [tuple(h) for h in case["heralds"]]
+    ps = case.get("ps")
+    base_dist = theoretical_dist(case["circ"], case["input"])
+    sim = Simulator(SLOSBackend())
+    sim.set_circuit(build_circuit(case["circ"]))
+    sim.set_selection(min_detected_photons_filter=case["minph"], heralds=dict(heralds),
+                      postselect=PostSelect(ps_string(ps)) if ps else None)
+    sim.keep_heralds(False)
+    sim.set_precision(0)
+    svd = SVDistribution(BasicState(case["input"]))
+    chk.branch("simulator-session")
+    prev_pnr = None
+    for i, dets in enumerate(case["seq"]):
+        kinds = None if dets is None else tuple(det_label(d) for d in dets)
+        is_pnr = spec_detection_type(dets or []) == "PNR"
+        if prev_pnr is True and not is_pnr:
+            chk.branch("session-mask-then-imperfect")
+        if prev_pnr is False and is_pnr:
+            chk.branch("session-imperfect-then-mask")
+        prev_pnr = is_pnr
+        herald_branches(chk, base_dist, dets, heralds, "sim")
+        chk.case(("simsession", kinds, tuple(case["input"]), tuple(heralds), case["minph"], i),
+                 nontrivial=not is_pnr,
+                 sample={"circuit": case["circ"], "input": case["input"], "heralds": case["heralds"], "dets": kinds})
+        objs = None if dets is None else [POOL.get(d) if case.get("pooled") else build_det(d) for d in dets]
+        sub = dict(case, seq=case["seq"][:i + 1])
+        try:
+            out = sim.probs_svd(svd, objs)
+        except Exception as e:
+            return ("violation", "probs-svd-heralds-raises",
+                    f"Simulator.probs_svd with detectors {kinds} and heralds {dict(heralds)} raised "
+                    f"{type(e).__name__}: {e}", sub)
+        got = {tuple(s): float(q) for s, q in out["results"].items()}
+        r = judge_heralded(chk, f"Simulator.probs_svd (query {i + 1} on one simulator)", got, float(out["physical_perf"]),
+                           float(out["logical_perf"]), base_dist, dets, case["minph"], heralds, ps, m, sub)
+        if r is not None:
+            return r
+    return None
+
+
+def gen_ps(rng, free_modes, n):
+    ps = []
+    for _ in range(rng.randint(1, 2)):
+        modes = sorted(rng.sample(free_modes, rng.randint(1, min(2, len(free_modes)))))
+        ps.append([modes, rng.choice(["==", "<", ">"]), rng.randint(0, max(1, n - 1))])
+    return ps
+
+
+def gen_herald_setup(rng, hmax):
+    """circuit + full input + heralds (values <= hmax); at least two photons can meet in a heralded mode"""
+    m = rng.randint(2, 4)
+    ops = []
+    for _ in range(rng.randint(3, 6)):
+        if rng.random() < 0.8:
+            ops.append(["bs", rng.randrange(m - 1), round(rng.uniform(0.5, 2.6), 3)])
+        else:
+            ops.append(["ps", rng.randrange(m), round(rng.uniform(0.1, 3.0), 3)])
+    # every neighbouring pair coupled at least once, so that photons can bunch anywhere
+    for i in range(m - 1):
+        if not any(o[0] == "bs" and o[1] == i for o in ops):
+            ops.append(["bs", i, round(rng.uniform(0.5, 2.6), 3)])
+    n = rng.randint(2, 4 if m <= 3 else 3)
+    hmodes = sorted(rng.sample(range(m), rng.randint(1, min(2, m - 1))))
+    heralds, left = [], n
+    for k in hmodes:
+        v = min(left, rng.choice([1, 1, 1, 0] + list(range(0, hmax + 1))))
+        heralds.append([k, v])
+        left -= v
+    free = [i for i in range(m) if i not in hmodes]
+    inp = [0] * m
+    for k, v in heralds:
+        inp[k] = v
+    for _ in range(left):
+        inp[rng.choice(free)] += 1
+    return {"m": m, "ops": ops}, inp, heralds, free, n
+
+
+def gen_herald_dets(rng, m, heralds, style):
+    if style == "pnr":
+        return [rng.choice([None, {"k": "pnr"}]) for _ in range(m)]
+    if style == "thr":
+        return [{"k": "thr"}] * m
+    kinds = [rng.choice(KINDS) for _ in range(m)]
+    for k, _ in heralds:
+        kinds[k] = rng.choice(["interleaved", "interleaved", "bs", "bs", "thr", "none", "pnr"])
+    dets = [gen_det(rng, k) for k in kinds]
+    for k, v in heralds:
+        d = dets[k]
+        if d is not None and d["k"] == "ppnr":
+            r = rng.random()
+            if r < 0.6:
+                # a maximum strictly above the expected reading: the reading is NOT saturated
+                d["w"] = max(d["w"], v + 2)
+                d["max"] = rng.choice([None] + list(range(v + 1, d["w"] + 1)))
+            elif r < 0.85 and v >= 1:
+                # the expected reading IS the maximum: "v photons or more"
+                d["w"] = max(d["w"], v + 1)
+                d["max"] = v
+    return dets
+
+
+def hproc_cases(chk):
+    rng = chk.rng
+    out = []
+    for i in range(chk.pick(40, 300)):
+        circ, inp, heralds, free, n = gen_herald_setup(rng, 1)
+        style = "mixed" if i % 6 else rng.choice(["pnr", "thr"])
+        dets = gen_herald_dets(rng, circ["m"], heralds, style)
+        case = {"circ": circ, "input": inp, "heralds": heralds, "dets": dets,
+                "minph": rng.randint(0, n - sum(v for _, v in heralds))}
+        if rng.random() < 0.35:
+            case["ps"] = gen_ps(rng, free, n)
+        if rng.random() < 0.25:
+            case["repeat"] = 2
+        out.append(case)
+    return out
+
+
+def simsession_cases(chk):
+    rng = chk.rng
+    out = []
+    for i in range(chk.pick(20, 150)):
+        circ, inp, heralds, free, n = gen_herald_setup(rng, 2)
+        m = circ["m"]
+        seq = []
+        for j in range(rng.randint(3, 5)):
+            style = ["pnr", "mixed", "mixed", "pnr", "thr"][(j + i) % 5] if rng.random() < 0.8 else rng.choice(["pnr", "mixed"])
+            seq.append(None if style == "pnr" and rng.random() < 0.3 else gen_herald_dets(rng, m, heralds, style))
+        case = {"circ": circ, "input": inp, "heralds": heralds, "seq": seq,
+                "minph": rng.randint(0, n - sum(v for _, v in heralds)), "pooled": rng.random() < 0.5}
+        if rng.random() < 0.25:
+            case["ps"] = gen_ps(rng, free, n)
+        out.append(case)
+    return out
+
+
+
+def run_hprocsample_case(chk, case):
+    """`Processor.samples()` with heralds and detectors: the sampling path must also read the heralds / post-selection on
+    the detector readings.  Every returned sample lies in the support of the oracle's conditional law; the drawn
+    frequencies are compared with it by a 6-sigma binomial band (a statistical TEST)."""
+    import perceval as pcvl
+    from perceval.utils import BasicState, PostSelect
+    heralds = [tuple(h) for h in case["heralds"]]
+    hmodes = {k for k, _ in heralds}
+    ps = case.get("ps")
+    base_dist = [(t, q) for t, q in theoretical_dist(case["circ"], case["input"]) if q > Fraction(1, 10 ** 12)]
+    spec, s_perf, s_acc, _ = spec_heralded(base_dist, case["dets"], case["minph"], heralds, ps)
+    kinds = tuple(det_label(d) for d in case["dets"])
+    if float(s_acc * s_perf) < 0.03:
+        chk.branch("hprocsample-skipped-rare")
+        return None
+    chk.branch("processor-samples-heralds")
+    herald_branches(chk, base_dist, case["dets"], heralds, "smp")
+    chk.case(("hprocsample", kinds, tuple(case["input"]), tuple(heralds), case["minph"]),
+             nontrivial=any(det_max(case["dets"][k]) is not None for k in hmodes),
+             sample={"processor": case["circ"], "input": case["input"], "dets": kinds, "heralds": case["heralds"],
+                     "samples": case["count"]})
+    pcvl.random_seed(case["seed"])
+    p = pcvl.Processor("CliffordClifford2017", build_circuit(case["circ"]))
+    for k, v in heralds:
+        p.add_herald(k, v)
+    for i, d in enumerate(case["dets"]):
+        if d is not None:
+            p.add(i, build_det(d))
+    if ps:
+        p.set_postselection(PostSelect(ps_string(ps)))
+    p.min_detected_photons_filter(case["minph"])
+    p.with_input(BasicState([x for i, x in enumerate(case["input"]) if i not in hmodes]))
+    try:
+        outs = [tuple(o) for o in p.samples(case["count"], 400 * case["count"])["results"]]
+    except Exception as e:
+        return ("violation", "processor-samples-raises",
+                f"Processor.samples() with detectors {list(kinds)} and heralds {dict(heralds)} raised "
+                f"{type(e).__name__}: {e}", case)
+    support = {t for t, q in spec.items() if q > 0}
+    for o in outs:
+        if o not in support:
+            return ("violation", "processor-samples-outside-support",
+                    f"Processor.samples() with detectors {list(kinds)}, heralds {dict(heralds)} returned {list(o)}, impossible "
+                    f"under the detector law applied to the theoretical distribution followed by the selection on the "
+                    f"readings", case)
+    n = len(outs)
+    if n >= 100:
+        chk.branch("hprocsample-frequency-test")
+        for t, q in spec.items():
+            q = float(q)
+            f = outs.count(t) / n
+            if abs(f - q) > 6 * (q * (1 - q) / n) ** 0.5 + 4.0 / n:
+                return ("violation", "processor-samples-heralds-frequencies",
+                        f"Processor.samples() with detectors {list(kinds)}, heralds {dict(heralds)}: {list(t)} drawn with "
+                        f"frequency {f:.3f} over {n} samples, law {q:.3f} (heralds/post-selection must be read on the "
+                        f"detector readings; 6-sigma statistical test)", case)
+    return None
+
+
+def hprocsample_cases(chk):
+    rng = chk.rng
+    out = []
+    for c in hproc_cases(chk)[:chk.pick(40, 200)]:
+        c = dict(c, seed=rng.randrange(1 << 30), count=rng.choice([300, 400]))
+        c.pop("repeat", None)
+        out.append(c)
+    return out
+
+
+def shrink_heralded(chk, kind, case, sig):
+    """greedy simplification of a failing hproc / simsession case (same signature must persist)"""
+    def fails(c):
+        try:
+            r = dispatch(chk, kind, c)
+        except Exception:
+            return False
+        return r is not None and r[1] == sig
+    cur = copy.deepcopy(case)
+    budget = 40
+    changed = True
+    while changed and budget > 0:
+        changed = False
+        cands = []
+        if cur.get("ps"):
+            cands.append(dict(cur, ps=None))
+        if cur.get("repeat", 1) > 1:
+            cands.append(dict(cur, repeat=1))
+        if cur.get("minph"):
+            cands.append(dict(cur, minph=0))
+        if kind == "simsession":
+            for i in range(len(cur["seq"])):
+                if len(cur["seq"]) > 1:
+                    cands.append(dict(cur, seq=cur["seq"][:i] + cur["seq"][i + 1:]))
+            lists = [("seq", j) for j in range(len(cur["seq"]))]
+        else:
+            lists = [("dets", None)]
+        hm = {k for k, _ in cur["heralds"]}
+        for name, j in lists:
+            dets = cur[name] if j is None else cur[name][j]
+            if dets is None:
+                continue
+            for i, d in enumerate(dets):
+                if d is not None and i not in hm:
+                    nd = copy.deepcopy(dets)
+                    nd[i] = None
+                    c = copy.deepcopy(cur)
+                    if j is None:
+                        c[name] = nd
+                    else:
+                        c[name][j] = nd
+                    cands.append(c)
+        for idx in range(len(cur["circ"]["ops"])):
+            c = copy.deepcopy(cur)
+            del c["circ"]["ops"][idx]
+            cands.append(c)
+        for c in cands:
+            budget -= 1
+            if budget <= 0:
+                break
+            if fails(c):
+                cur, changed = copy.deepcopy(c), True
+                break
+    return cur
 
 
 
@@ -961,6 +1506,14 @@ def dispatch(chk, kind, case):
         return run_heralds_case(chk, case)
     if kind == "proc":
         return run_proc_case(chk, case)
+    if kind == "detsession":
+        return run_detsession_case(chk, case)
+    if kind == "hproc":
+        return run_hproc_case(chk, case)
+    if kind == "simsession":
+        return run_simsession_case(chk, case)
+    if kind == "hprocsample":
+        return run_hprocsample_case(chk, case)
     if kind == "sample":
         return run_sample_case(chk, case)
     if kind == "procsample":
@@ -981,7 +1534,11 @@ def run(chk: core.Check):
                 "BSLayeredPPNR over (layers, reflectivity, photons); every detector list over a 7-letter alphabet up to "
                 "length 3/4 for get_detection_type; simulate_detectors over every per-mode mixture of "
                 "{none, pnr, threshold, interleaved, bs-tree} for m<=2/3 plus random m<=4, every filter 0..n+1/None; "
-                "Processor.probs() with detectors; simulate_detectors_sample and Processor.samples() draws against the support of "
+                "Processor.probs() with detectors; one detector instance through histories mixing detect / filtered one-mode "
+                "simulate_detectors / one-mode Processor.probs(); Processor.probs() and Processor.samples() with heralds "
+                "(0/1) on modes read by none/PNR/threshold/interleaved/tree detectors, filter, post-selection; one Simulator "
+                "through probs_svd with sequences of detector lists (mask on/off) and heralds up to 2; "
+                "simulate_detectors_sample and Processor.samples() draws against the support of "
                 "the kernel product. distinct = distinct (detector, photons) / (kinds, states, filter) "
                 "signatures; non-trivial = a multi-wire or tree detector hit by >=2 photons, resp. a non-PNR list on a "
                 "distribution with a >=2-photon state")
@@ -995,7 +1552,12 @@ def run(chk: core.Check):
         "(callers filter upstream); modelled as coded",
         "simulate_detectors_sample / Processor.samples(): only membership of every draw in the support of the proved law "
         "is decided; agreement of the drawn frequencies with the law is a 6-sigma statistical TEST, not a proof",
-        "bsTree_half_eq_wires (balanced tree = 2^L wires) is not a theorem: compared numerically for L<=3 on every run",
+        "heralded cases: the theoretical distribution is the one the same circuit gives through a detector-free, herald-free "
+        "Processor (SLOS, precision 0); perfect source, one Fock input state; photon filter <= photons outside the heralds; "
+        "herald incompatible with its detector (value > max_detections): probs_svd returns early with physical_perf = 1 "
+        "(as coded, physical_perf not compared there); logical_perf is compared with the exact oracle only (not modelled)",
+        "Processor.samples() with heralds: support membership is decided, frequencies are a 6-sigma statistical TEST; cases whose "
+        "acceptance probability is below 3% are skipped",
     ]
     chk.required_branches = ["ppnr-fold", "ppnr-nofold", "more-photons-than-wires", "threshold", "pnr", "cache-hit",
                              "minp-trim", "bs-tree", "bs-unbalanced", "bs-cache-hit", "bs-leaf-law", "rejected",
@@ -1004,7 +1566,18 @@ def run(chk: core.Check):
                              "sim-pnr-branch", "sim-threshold-branch", "sim-general-branch", "sim-mixed-kinds",
                              "sim-empty-dist", "filter-drop", "filter-all-dropped", "processor-glue",
                              "sample-pnr", "sample-threshold", "sample-general", "sample-general-with-none",
-                             "sample-frequency-test", "processor-samples"]
+                             "sample-frequency-test", "processor-samples",
+                             # heralds / post-selection read on the detector readings (Processor.probs, Simulator.probs_svd)
+                             "processor-heralds", "proc-herald-on-pnr", "proc-herald-on-threshold", "proc-herald-on-ppnr",
+                             "proc-herald-ppnr-bunched", "proc-herald-zero", "proc-mask-path", "proc-postselect",
+                             "proc-requery", "simulator-session", "sim-herald-on-ppnr", "sim-herald-ppnr-bunched",
+                             "proc-herald-saturated", "sim-herald-saturated", "sim-herald-incompatible", "sim-mask-path",
+                             "session-mask-then-imperfect", "session-imperfect-then-mask",
+                             "model-mask-on", "model-mask-off",
+                             "detector-session", "session-one-mode-sim", "session-filter-rejects-reading",
+                             "session-detect-after-filtered-sim",
+                             "processor-samples-heralds", "hprocsample-frequency-test", "smp-herald-on-ppnr",
+                             "smp-herald-ppnr-bunched", "smp-herald-on-threshold"]
     rng = chk.rng
     for kind, case in load_corpus():
         if kind == "sim":
@@ -1018,7 +1591,10 @@ def run(chk: core.Check):
         for case in cases:
             r = dispatch(chk, kind, case)
             if r is not None:
-                chk.fail(r[0], r[1], r[2], {"kind": kind, "case": r[3]})
+                rp = r[3]
+                if kind in ("hproc", "simsession"):
+                    rp = shrink_heralded(chk, kind, rp, r[1])
+                chk.fail(r[0], r[1], r[2], {"kind": kind, "case": rp})
 
     go("detect", detect_cases(chk))
     go("bs", bs_cases(chk))
@@ -1042,9 +1618,13 @@ def run(chk: core.Check):
     go("heralds", hcases)
     for case in sim_cases(chk):
         handle_sim(chk, case)
+    go("detsession", detsession_cases(chk))
     go("proc", proc_cases(chk))
+    go("hproc", hproc_cases(chk))
+    go("simsession", simsession_cases(chk))
     go("sample", sample_cases(chk))
     go("procsample", procsample_cases(chk))
+    go("hprocsample", hprocsample_cases(chk))
     chk.exhaustive = False
     chk.extra["exhaustive_parts"] = {
         "Detector.detect": f"all 0<=max<=w<={chk.pick(8, 14)} and max=None, n<={chk.pick(10, 18)}",
